@@ -638,6 +638,15 @@ func runC04(w *World, r *Report) {
 	}
 
 	w.oxmVarLenRule(r)
+	// shared necessary conditions: a decoder that tests its input length for equality does not decode inside a
+	// larger message (a fast path in Parse for 8-byte frames turns an element-less hello into a bare header);
+	// the packet-in payload is decoded with the header kinds' size functions, which must not wrap
+	r.Rule("trailing", "decoders test the input length with lower bounds only", 60)
+	trailingRule(w, r)
+	if spec, err := loadPacketLayout(); err == nil {
+		r.Rule("nowrap", "no size function of a packet-header kind (packet-in payload) computes a length in arithmetic narrower than 16 bits that the field ranges can overflow", 10)
+		nowrapSizes(w, r, spec)
+	}
 	// ---------------------------------------------------------------- retain
 	for _, k := range w.KindsL {
 		if k.Unmarshal == nil || !k.OwnUnmarshal || k.Pkg.Name == "protocol" {
@@ -1099,6 +1108,11 @@ func (w *World) oxmVarLenRule(r *Report) {
 			continue
 		}
 		var bad []string
+		// the mask flag handed to the dispatcher must be the header's mask bit as read from the wire (not, say, a
+		// receiver field that has not been assigned yet)
+		if !strings.Contains(ma.Cond, "P[") {
+			bad = append(bad, "the mask flag passed to the dispatcher is "+ma.Cond+", not the mask bit of the header just read: a masked variable-length field is decoded as unmasked (or the reverse)")
+		}
 		for _, m := range []bool{false, true} {
 			want := hdr
 			if m {
